@@ -1132,7 +1132,11 @@ def MPD(phi: np.ndarray) -> float:
     w = np.abs(phi)
     num = phi.real * V[1, 1] - phi.imag * V[0, 1]
     den = np.sqrt(V[0, 1] ** 2 + V[1, 1] ** 2) * np.abs(phi)
-    MPD = np.sum(w * np.arccos(np.abs(num / den))) / np.sum(w)
+    # components with zero modulus have zero weight (and an undefined phase): skip them;
+    # rounding can push the cosine slightly above 1 for (nearly) collinear shapes: clip it
+    nz = den > 0
+    cos = np.clip(np.abs(num[nz] / den[nz]), 0.0, 1.0)
+    MPD = np.sum(w[nz] * np.arccos(cos)) / np.sum(w[nz])
     return MPD
 
 
